@@ -59,7 +59,7 @@ ASSUMPTIONS = [
 ]
 PROBES = [
     "rt_path_suffix", "rt_fileobj", "rt_fileobj_path_replaced", "rt_bytesio", "rt_zero_dim", "rt_stream_at_offset",
-    "rt_file_overwritten_after_read", "rt_dtype_cast", "rt_key", "rt_multichannel", "err_no_suffix",
+    "rt_file_overwritten_after_read", "rt_gzip_stream", "rt_duck_typed_stream", "rt_dtype_cast", "rt_key", "rt_multichannel", "err_no_suffix",
     "err_stream_no_force_as", "err_unknown_force_as", "wds_header_fault", "wds_payload_fault", "wds_last_byte",
     "wds_array_from_damaged", "wds_none", "wds_non_array_return", "wds_wrong_suffix", "wds_unknown_suffix", "wds_valid_image",
 ] + ["rt_" + k for k in ct.KINDS] + ["wds_" + k for k in ct.KINDS if k != "raw"]
@@ -72,8 +72,8 @@ def generate(rng, tier, k):
         spec = ct.gen_spec(rng)
         kind = spec["kind"]
         scn = {"mode": "rt", "spec": spec,
-               "access": (rng.choice(("path", "path", "fileobj", "fileobj_replaced", "bytesio", "bytesio_offset"))
-                          if kind != "raw" else rng.choice(("path", "fileobj"))),
+               "access": (rng.choice(("path", "path", "fileobj", "fileobj_replaced", "bytesio", "bytesio_offset", "gzip",
+                                      "duck")) if kind != "raw" else rng.choice(("path", "fileobj"))),
                "clobber_after": rng.random() < 0.3,
                "other": ct.gen_spec(rng, kind),
                "dtype_req": None,
@@ -103,6 +103,19 @@ def generate(rng, tier, k):
 
 
 # ------------------------------------------------------------------ fault-free round trips
+
+class _Duck(object):
+    """Delegates to a real stream without inheriting from io.IOBase."""
+
+    def __init__(self, f):
+        self._f = f
+
+    def __getattr__(self, name):
+        return getattr(self._f, name)
+
+    def __iter__(self):
+        return iter(self._f)
+
 
 def _read(src, **kw):
     with warnings.catch_warnings():
@@ -167,6 +180,22 @@ def _exec_rt(scn, res, tr):
                     os.replace(p2, path)
                 finally:
                     shutil.rmtree(tmp2, ignore_errors=True)
+        elif access == "gzip" and kind in ("npy", "sph"):  # (the wave module itself rejects GzipFile: its .mode is an int)
+            # a decompressing stream: it has a fileno() (of the COMPRESSED file), is seekable, and is a binary stream
+            import gzip
+
+            res.probe("rt_gzip_stream")
+            gz = path + ".gz"
+            with gzip.open(gz, "wb") as f:
+                f.write(data)
+            fobj = gzip.open(gz, "rb")
+            src = fobj
+            kw["force_as"] = ct.FORCE_AS[kind]
+        elif access == "duck":
+            # a reader object that is not an io.IOBase subclass (tempfile wrappers, mmap, user classes)
+            res.probe("rt_duck_typed_stream")
+            src = _Duck(io.BytesIO(data))
+            kw["force_as"] = ct.FORCE_AS[kind]
         elif access == "bytesio_offset" and kind in ("wav16", "wav32", "npy", "sph"):
             # several recordings back to back in one stream: this one starts at the stream's current position
             res.probe("rt_stream_at_offset")
@@ -215,7 +244,7 @@ def _exec_rt(scn, res, tr):
                     probe=err, **facts)
         elif err == "stream_no_force" and res.verdict == "OK":
             res.probe("err_stream_no_force_as")
-            out, exc = _read(io.BytesIO(data))
+            out, exc = _read(io.BytesIO(data) if scn.get("key_pick", 0) % 2 else _Duck(io.BytesIO(data)))
             tr.log("err_stream", out, exc)
             if not isinstance(exc, ValueError):
                 res.violate("ERROR_TYPE", "read_signal(stream) without force_as: %s, expected ValueError" % (
